@@ -211,6 +211,17 @@ func (ts *TermStore) BinOp(op token.Token, it IntTy, x, y *Term, yTy IntTy, wrap
 		}
 		return r, nil, nz
 	case token.AND, token.OR, token.XOR, token.AND_NOT:
+		// a mask chosen among constants (e.g. 1<<n-1): distribute the operation over the choice
+		if !y.isInt() {
+			if r, ok := ts.liftIte(y, func(c *Term) *Term { r, _, _ := ts.BinOp(op, it, x, c, yTy, wrapSigned); return r }); ok {
+				return r, nil, nil
+			}
+		}
+		if !x.isInt() && op != token.AND_NOT {
+			if r, ok := ts.liftIte(x, func(c *Term) *Term { r, _, _ := ts.BinOp(op, it, c, y, yTy, wrapSigned); return r }); ok {
+				return r, nil, nil
+			}
+		}
 		ux, uy := ts.toUnsigned(it, x), ts.toUnsigned(it, y)
 		full := new(big.Int).Sub(pow2(it.bits), bigOne)
 		var r *Term
